@@ -87,6 +87,7 @@ func clampIdiom(c *eng.Ctx, fn *ssa.Function, min int) {
 
 func runC11(c *eng.Ctx) {
 	p := c.P
+	dataLoadContextReducedOnce(c)
 	memoryIndexScannedUnderLock(c)
 	compressBufferIsOwned(c)
 
